@@ -227,7 +227,6 @@ Section Guards.
     v_init v && negb (v_mixed v) && negb (v_any_type v) && negb (v_nillable v)
     && match v_elements v with [] => true | _ => false end
     && match v_wildcards v with [] => true | _ => false end
-    && match v_sequence v with None => true | Some _ => false end
     && negb (v_index v =? 0).
 
   Definition var_type (v : xvar) : option ptype :=
@@ -273,7 +272,9 @@ Section Guards.
               | Some f => factory_default f (v_default v)
               end
        | None => false
-       end.
+       end
+    (* `sequence` on a Text field: not modelled (a class with a Text field has no element fields) *)
+    && match v_sequence v with None => true | Some _ => false end.
 
   (* wrapper: documented for plain (non token) list elements *)
   Definition wrapper_ok (v : xvar) : bool :=
@@ -305,6 +306,39 @@ Section Guards.
        | None => false
        end.
 
+  (* ---- sequence groups ----------------------------------------------------------- *)
+  (* 1 + index of the last field of l with the sequence number s, 0 if there is none
+     (next_value: `end = next(i for i in indices[::-1] if attrs[i].sequence == var.sequence) + 1`) *)
+  Fixpoint last_same (s : option N) (l : list xvar) : nat :=
+    match l with
+    | [] => O
+    | x :: r => match last_same s r with
+                | O => if opt_eqb N.eqb (v_sequence x) s then 1%nat else O
+                | S k => S (S k)
+                end
+    end.
+  (* the fields inside the span of a sequence group (whatever their own `sequence`) are rendered by
+     the rolling loop, a list item by item: no token lists there (refuted: a token list is split,
+     C01_sequence_tokens_refuted), no wrapper element (modelling rule: every item gets its own
+     wrapper element, which reads back but is not proved) *)
+  Definition seq_member (v : xvar) : bool :=
+    no_wrapper v && match v_tokens_factory v with None => true | Some _ => false end.
+  Fixpoint seq_spans_ok (fuel : nat) (vars : list xvar) : bool :=
+    match fuel with
+    | O => false
+    | S f =>
+        match vars with
+        | [] => true
+        | v :: rest =>
+            match v_sequence v with
+            | None => seq_spans_ok f rest
+            | Some _ =>
+                let n := last_same (v_sequence v) rest in
+                forallb seq_member (v :: firstn n rest) && seq_spans_ok f (skipn n rest)
+            end
+        end
+    end.
+
   (* ---- metadata of one class ------------------------------------------------------ *)
   Definition distinct_s (l : list str) : bool := nodup_by str_eqb l.
   Definition distinct_n (l : list N) : bool := nodup_by N.eqb l.
@@ -331,7 +365,8 @@ Section Guards.
        | Some t => wf_text t && match m_elements m with [] => true | _ => false end
        end
     && distinct_s (map v_name (get_all_vars m))
-    && distinct_n (map v_index (get_all_vars m)).
+    && distinct_n (map v_index (get_all_vars m))
+    && seq_spans_ok (S (length (get_element_vars m))) (get_element_vars m).
 
   (* every class reachable from cl through class-typed fields; fuel = number of classes + 1
      (a class graph with a cycle is outside the guard) *)
